@@ -295,7 +295,7 @@ def _close(x, y, tol):
 
 
 def compare(real, model, prefix, where, pos_tol=0.0, order="exact", coeff_eq=None, check_labels=True, check_extras=True,
-            check_elements=True, mass_tol=0.0, charge_tol=0.0, cell_tol=1e-12):
+            check_elements=True, mass_tol=0.0, charge_tol=0.0, cell_tol=1e-12, skip_kinds=()):
     """real, model: RefAtoms (real = abstract(Atoms)).  order: 'exact' (index-wise) or 'any' (atoms matched by position)."""
     def bad(cls, msg):
         raise Violation("%s:%s" % (prefix, cls), "%s (%s)" % (msg, where), site=where.split(" ")[0])
@@ -344,6 +344,8 @@ def compare(real, model, prefix, where, pos_tol=0.0, order="exact", coeff_eq=Non
                     bad("extra-labels", "extra %s labels %s, expected %s" % (k, real.xlabels[k], model.xlabels[k]))
     inv = {r: m for m, r in enumerate(perm)}
     for k in KINDS:
+        if k in skip_kinds:
+            continue
         rt, mt = real.terms[k], model.terms[k]
         if len(rt) != len(mt):
             bad("%s-count" % k, "%d %s, expected %d" % (len(rt), PLURAL[k], len(mt)))
